@@ -163,9 +163,8 @@ Inductive tls_backend := Rustls | Openssl.
 
 Inductive tls_res :=
 | TOk (conn : Z)             (* Connection<R, TlsStream<IO>> over this connection *)
-| TErrInvalidInput           (* io::ErrorKind::InvalidInput "invalid server name" (rustls_0_2x) *)
-| TErrHandshake              (* rustls: the library's io::Error as is; openssl: ErrorKind::Other + text *)
-| TPanic.                    (* openssl.rs: `.expect("SSL connect configuration was invalid.")` *)
+| TErrInvalidInput           (* io::ErrorKind::InvalidInput "invalid server name", before any handshake *)
+| TErrHandshake.             (* rustls: the library's io::Error as is; openssl: ErrorKind::Other + text *)
 
 Inductive full_res := FTcpErr (e : cerror) | FTcpPanic | FTls (r : tls_res).
 
@@ -230,7 +229,9 @@ Section Connector.
 
   (* ---------------------------------------------- TLS connector services *)
   Variable name_ok : tls_backend -> str -> bool.
-    (* Rustls: ServerName::try_from(name).is_ok();  Openssl: ConnectConfiguration::into_ssl(name).is_ok() *)
+    (* Rustls: ServerName::try_from(name).is_ok();
+       Openssl: !name.contains('\0') && ConnectConfiguration::into_ssl(name).is_ok()
+       (until the fix: commit 0777ede the OpenSSL service panicked here instead of returning an error) *)
   Variable handshake_ok : tls_backend -> Z -> str -> bool.
     (* the TLS library's verdict: the handshake over connection `conn` succeeds when the
        peer is verified for `name` (certificate chain + name match) *)
@@ -240,7 +241,7 @@ Section Connector.
     let name := hostname req in                    (* Connection::hostname() = req.hostname() *)
     if name_ok b name then
       ([ETlsName name], if handshake_ok b conn name then TOk conn else TErrHandshake)
-    else ([], match b with Rustls => TErrInvalidInput | Openssl => TPanic end).
+    else ([], TErrInvalidInput).
 
   (* the pipeline a client builds: Connector, then TlsConnector on its Connection *)
   Definition connect_tls (b : tls_backend) (c : cinfo) : list ev * full_res :=
